@@ -65,7 +65,7 @@ def ansOf (j : Json) : Except String Ans := do
     let sd ← statusListOf (← j.getObjVal? "status")
     let res ← (← getArr j "results").mapM resOf
     return .poll sd res
-  if hasKey j "status" then return .statuses (← statusListOf (← j.getObjVal? "status"))
+  if hasKey j "st" then return .status (← stOf (← getStr j "st"))
   if hasKey j "d" then
     let m ← (if hasKey j "m" then do pure (some (← pairsOf (← j.getObjVal? "m") valOf)) else pure none)
     return .decision (← decOf (← getStr j "d")) m
@@ -84,13 +84,13 @@ def expects (pc : Pc) (a : Ans) : Bool :=
   match a with
   | .raise => true
   | .ret => !(pc == .clock || pc == .fetch || pc == .decision || pc == .busy || pc == .suggest
-              || pc == .removable || pc == .finAll || pc == .done)
+              || pc == .removable || pc == .finAll || pc == .finStatus || pc == .done)
   | .poll _ _ => pc == .fetch
   | .decision _ _ => pc == .decision
-  | .ids _ => pc == .busy || pc == .removable
+  | .ids _ => pc == .busy || pc == .removable || pc == .finAll
   | .sugg _ => pc == .suggest
   | .clock _ => pc == .clock
-  | .statuses _ => pc == .finAll
+  | .status _ => pc == .finStatus
 
 def insertNat (x : Nat) : List Nat → List Nat
   | [] => [x]
@@ -135,6 +135,7 @@ def jCall : Call → Json
   | .resume t c => jArr [jS "be", jS "resume", jNat t, jOptN c]
   | .removable => jArr [jS "sched", jS "removable"]
   | .allResults => jArr [jS "be", jS "all_results"]
+  | .status t => jArr [jS "be", jS "status", jNat t]
   | .exit => jArr [jS "exit"]
 
 def jStat (m : MStat) : Json :=
